@@ -736,5 +736,14 @@ func LongChain(c Codec, logID string, n int) ([]iface.IPFSLogEntry, [][]byte) {
 		}
 		longChains.es[key], longChains.rw[key] = es, rw
 	}
-	return longChains.es[key][:n:n], longChains.rw[key][:n:n]
+	// every caller gets its own entry objects (a check may alter the ones it holds in place)
+	out := make([]iface.IPFSLogEntry, n)
+	for i, e := range longChains.es[key][:n] {
+		c := e.Copy()
+		c.SetPayload(append([]byte(nil), e.GetPayload()...))
+		c.SetKey(append([]byte(nil), e.GetKey()...))
+		c.SetSig(append([]byte(nil), e.GetSig()...))
+		out[i] = c
+	}
+	return out, longChains.rw[key][:n:n]
 }
